@@ -83,9 +83,39 @@ def restoreOp (args : List String) : Option String :=
     let a ← listOf flt
     pure (fList fF (restoreOrder index a))) args
 
+def fChains (r : List (List (List Float)) × List (List Float)) : String :=
+  fList (fList (fList fF)) r.1 ++ " " ++ fList (fList fF) r.2
+
+/-- `c09.nestsingle table` → per solution the samples and the weights (`multimodes = False`) -/
+def nestSingleOp (args : List String) : Option String :=
+  run (do
+    let data ← listOf (listOf flt)
+    pure (fChains (nestChainsSingle data))) args
+
+/-- `c09.nestmodes lines` (a line = its emptiness flag and its numbers) → per mode the sample array and the weights -/
+def nestModesOp (args : List String) : Option String :=
+  run (do
+    let lines ← listOf (do
+      let b ← nat
+      let toks ← listOf flt
+      pure ({ blank := b != 0, toks := toks } : PLine Float))
+    pure (fChains (nestChainsModes lines))) args
+
+/-- `c09.polychains nfit doClustering nClusters table clusterTables` → samples, weights, number of solutions -/
+def polyChainsOp (args : List String) : Option String :=
+  run (do
+    let nfit ← nat
+    let dc ← nat
+    let nc ← nat
+    let data ← listOf (listOf flt)
+    let cl ← listOf (listOf (listOf flt))
+    let r := polyChains nfit (dc != 0) nc data (fun k => cl.getD k [])
+    pure (fChains (r.1, r.2.1) ++ " " ++ fN r.2.2)) args
+
 def ops : List Op :=
   [("c09.quantile", quantileOp), ("c09.summary", summaryOp), ("c09.argmax", argmaxOp), ("c09.wmean", wmeanOp),
    ("c09.interp", interpOp), ("c09.sort", sortOp), ("c09.cdf", cdfOp), ("c09.store", storeOp),
-   ("c09.restore", restoreOp)]
+   ("c09.restore", restoreOp), ("c09.nestsingle", nestSingleOp), ("c09.nestmodes", nestModesOp),
+   ("c09.polychains", polyChainsOp)]
 
 end Taurex.Ops.C09
